@@ -36,8 +36,13 @@ func VerifC18Vacuum() {
 	verifDrain()
 	verifRaceDetect(false)
 	verifReach("done")
+	// every key registered for vacuuming is removed once its ttl and two ticks have passed,
+	// as in any one-at-a-time order of the VacuumKey calls and the vacuum passes
+	verifAdvance(3 * sec)
+	verifDrain()
 	mu.RLock()
 	_, stillA := m["a"]
+	_, stillB := m["b"]
 	mu.RUnlock()
-	_ = stillA
+	verifAssert(!stillA && !stillB, "a key registered for vacuuming while a vacuum pass was running is never vacuumed")
 }
